@@ -5,7 +5,9 @@ import subprocess
 from concurrent.futures import ThreadPoolExecutor
 
 import common
-from common import cz, cnat, clist, cpair
+import serde_run
+import to_coq
+from common import cz, cnat, clist, cpair, cstr
 
 W = 2 ** 32
 
@@ -235,7 +237,7 @@ def case_term(ps, hist, calls):
 def run(chk):
     quick = chk.tier == "quick"
     ndev, nhist, hlen, maxp = (40, 40, 14, 60) if quick else (400, 120, 24, 2000)
-    broken = chk.proof_obligations(["Corr/C19.vo", "Sched/SchedGenProofs.vo"])
+    broken = chk.proof_obligations(["Corr/C19.vo", "Corr/C19Periods.vo", "Sched/SchedGenProofs.vo"])
     chk.coverage["rule"] = (
         "devices: 1-4 CAN messages (u8/u16/u32 fields), periods -1, 0, 1, 1..N or none (three in ten messages repeat the period of an earlier message of the device), in half of the schemas declared between 1-3 messages of other "
         "devices (bms, dash, none), generated C compiled with gcc; "
@@ -262,12 +264,20 @@ def run(chk):
         untied = translated_devices_are_the_model(chk, [(d, b) for d, b in zip(devices, built) if b[0]])
         if untied and broken is None:
             broken = "generated scheduler is not the modelled statement sequence: " + untied
-        cases, meta = [], []
+        cases, meta, pcases, pmeta = [], [], [], []
         for (msgs, text, wd), (exe, err) in zip(devices, built):
             if exe is None:
                 chk.violation({"kind": "generated C does not build", "schema": text, "error": err})
                 continue
             ps = [m["period"] for m in msgs]
+            # the periods the model is run with are those of the ecu's CAN bindings as written in the schema (own parse): the other side of
+            # CanC/CWriterProofs.v scheduler_periods_are_the_bindings
+            try:
+                ref = serde_run.parse(text).unwrap()
+                pcases.append(cpair(clist(to_coq.impl(i) for i in ref.impls), cstr("ecu"), clist(cz(p) for p in ps)))
+                pmeta.append(text)
+            except Exception as e:
+                chk.violation({"kind": "device schema does not parse", "schema": text, "error": repr(e)})
             for _ in range(nhist):
                 hist = gen_history(chk.rng, msgs, chk.rng.randint(3, hlen))
                 calls = run_history(exe, msgs, hist)
@@ -294,6 +304,9 @@ def run(chk):
         mism = []
         if broken is None:
             try:
+                for i in common.run_cases("C19Periods", pcases)[:3]:
+                    chk.violation({"kind": "periods-of-the-device-are-not-those-of-its-bindings", "schema": pmeta[i],
+                                   "correspondence": "Corr.C19Periods.check_case"}, no_failing_input=True)
                 mism = common.run_cases("C19", cases)
             except common.CoqError as e:
                 broken = f"correspondence could not be evaluated: {e}"
